@@ -144,7 +144,10 @@ should_fail_k(int kind)
     ncalls++;
     if (fault_at < 0)
         return 0;
-    if (ncalls == fault_at || (fault_sticky && ncalls > fault_at)) {
+    /* sticky 1: every later stdio call fails; sticky 2: every later call of the SAME stdio function fails (a full disk:
+       all writes fail, everything else works; an unreadable medium: all reads fail) */
+    if (ncalls == fault_at || (fault_sticky == 1 && ncalls > fault_at) ||
+        (fault_sticky == 2 && ncalls > fault_at && nfaults > 0 && kind == fault_kind)) {
         if (nfaults == 0)
             fault_kind = kind;
         nfaults++;
